@@ -590,6 +590,8 @@ def r01h(ctx):
                     if name is None:
                         continue
                     n += 1
+                    if name not in params and "_" + name in params:
+                        name = "_" + name  # a planner property handed to the private parameter of the same name
                     if name != p and name in params:
                         cid = f"{fq}->{K.name}:{p}<-{name}"
                         if (fq, K.name, p, name) in R01H_EXCEPTIONS:
